@@ -313,6 +313,42 @@ func Run(r *fw.Run) {
 		}, func() { r.Merge(l) }
 	})
 	r.Sample(map[string]any{"kind": "match", "globs": "a/*,b", "target": "a/b/a", "result": module.MatchPrefixPatterns("a/*,b", "a/b/a")})
+	// depth: globs and targets of up to 14 path elements (element counts on both sides of every small
+	// fixed-size buffer one might use), plain and with a wildcard element, exact, shorter and longer
+	{
+		l := fw.NewLocal()
+		mk := func(n int, last string) string {
+			parts := make([]string, n)
+			for i := range parts {
+				parts[i] = "e" + strconv.Itoa(i%10)
+			}
+			if n > 0 && last != "" {
+				parts[n-1] = last
+			}
+			return strings.Join(parts, "/")
+		}
+		for gn := 1; gn <= 14; gn++ {
+			for tn := 1; tn <= 14; tn++ {
+				for _, gl := range []string{"", "*", "e?", "x"} {
+					for _, tl := range []string{"", "x"} {
+						for _, pre := range []string{"", "zz,", "zz/*,"} {
+							l.States++
+							l.Transitions++
+							checkMatch(r, l, pre+mk(gn, gl), mk(tn, tl))
+						}
+					}
+				}
+			}
+		}
+		// very long elements and very long lists
+		long := strings.Repeat("a", 70000)
+		for _, c := range [][2]string{{long, long}, {long, long + "/x"}, {long + "/*", long + "/x/y"}, {strings.Repeat("zz,", 5000) + "a/b", "a/b/c"}, {"a/b", long}} {
+			l.States++
+			l.Transitions++
+			checkMatch(r, l, c[0], c[1])
+		}
+		r.Merge(l)
+	}
 	// byte sweep over globs and targets: every byte value in a glob slot against matching-looking targets
 	{
 		l := fw.NewLocal()
